@@ -34,7 +34,8 @@ def run(ctx):
     # the per-field loops of drops.rs / clones.rs as they are written today
     # and the ErasedList functions that receive an element by raw pointer (src/value/list.rs),
     # with the function every script-visible list method hands its DynVal to (src/runtime/basic.rs)
-    ctx.extract(["glueloops", "listown"])
+    # and the ownership-relevant decisions of the MIR -> LIR lowering of a block (src/lir/lower.rs)
+    ctx.extract(["glueloops", "listown", "mirlower"])
     built = ctx.build_harness("c03")
     if built:
         emit_dumps(ctx)
@@ -46,6 +47,7 @@ def run(ctx):
         (PROPS_VARIANT + "Now", ["RotoV.Generated.C03Dumps"]),
         (PROPS_RUNTIME, ["RotoV.Model.ListOwn"]),
         (PROPS_RUNTIME + "Now", ["RotoV.Generated.ListOwn"]),
+        ("RotoV.Props.C03Lower", ["RotoV.Model.MirLower", "RotoV.Generated.MirLower"]),
     ]:
         ctx.prove(mod, extra_modules=extra)
         theorems += ctx.coverage.get("theorems", [])
